@@ -238,10 +238,10 @@ Definition native_call (n : native) (args : list value) (this : option addr) : M
     | Some v =>
       let cs := match v with VArr bid off len => arr_cells h bid off len | _ => [] end in
       let vals := map (load h) cs in
-      (* the clone goes through copyValue; an uncopyable element would leave a zero
-         Value behind, which the comparison dereferences: a panic site *)
+      (* the clone goes through copyValue; an element that cannot be copied (a function)
+         is an error *)
       if existsb (fun x => match copy_value x with None => true | Some _ => false end) vals
-      then fail Panic
+      then ret NError
       else
         let copies := map (fun x => match copy_value x with Some y => y | None => x end) vals in
         let sorted :=
